@@ -26,7 +26,9 @@ from harness import world, observe
 LEVEL = "exploration"
 RULE = ("(a) Hypothesis-generated batches of 1-9 tasks (two agent-id pools; task order permuted against id order; an agent "
         "unknown to the state; agents listed two or three times, with and without graphs), graph sets random / pairwise disjoint / chained / one "
-        "overlapping pair, resolved from graphs_by_agent, agents, both or mixed; worker limits 2-16 and the three documented "
+        "overlapping pair, resolved from graphs_by_agent, agents, both or mixed (per agent: either table, an object-style registry entry, or a "
+        "registry entry that declares no graphs - metadata only / {} / None / graphs=None / object without .graphs - with the "
+        "set in graphs_by_agent); worker limits 2-16 and the three documented "
         "gates closed (enabled, agents, max_workers 0/1 => plain sequential loop); per-task LOG PROGRAMS instead of fixed "
         "records: fresh records, the same live dict logged again (unchanged, after top-level set/del or after an in-place "
         "edit of a nested list/dict), a dict shared by all "
@@ -152,12 +154,12 @@ def batches(draw):
         p["fail"] = draw(st.integers(0, len(p["ops"])))
     case = {"agents": agents, "gsets": gsets, "gmode": gmode, "tasks": tasks, "progs": progs, "workers": workers,
             "turn_id": draw(st.sampled_from([1, 7, 99, 0, 12])), "every": draw(st.sampled_from([1, 2, 3])),
-            "shape": draw(st.sampled_from(["graphs_by_agent", "agents", "both", "mixed"])),
+            "shape": draw(st.sampled_from(["graphs_by_agent", "agents", "both", "mixed", "mixed"])),
             "ci": draw(st.sampled_from(["true", "true", None, "1"])),
             "gate": draw(st.sampled_from([None] * 8 + ["enabled", "agents", "mw1", "mw0"])),
             "etag": draw(st.sampled_from(["3", "3", "0", None, "abc"]))}
     if case["shape"] == "mixed":
-        case["where"] = {a: draw(st.sampled_from(["agents", "graphs_by_agent"])) for a in agents}
+        case["where"] = {a: draw(st.sampled_from(_WHERE_DECLARING + _WHERE_SILENT)) for a in agents}
     if draw(st.booleans()):
         case["seed"] = draw(st.sampled_from([0, 7]))
     if draw(st.booleans()):
@@ -225,15 +227,39 @@ def ref_selection(case):
     return picked
 
 
+# where an agent's graph set is declared ("mixed" shape), per agent:
+#   agents / graphs_by_agent  only that table knows the agent
+#   obj                       object-style registry entry with a .graphs attribute, nothing in graphs_by_agent
+#   meta / empty / none / gnone / objmeta / objnone
+#                             the agent IS registered in state.agents but the entry declares no graphs (metadata only, {},
+#                             None, graphs=None, object without / with None .graphs); its set is in graphs_by_agent
+_WHERE_DECLARING = ["agents", "graphs_by_agent", "obj"]
+_WHERE_SILENT = ["meta", "empty", "none", "gnone", "objmeta", "objnone"]
+
+
+def _registry_entry(kind, a, g):
+    if kind == "agents":
+        return {"persona": f"{a}-persona", "graphs": list(g)}
+    if kind == "obj":
+        return SNS(persona=f"{a}-persona", graphs=list(g))
+    return {"meta": {"persona": f"{a}-persona"}, "empty": {}, "none": None, "gnone": {"persona": "p", "graphs": None},
+            "objmeta": SNS(persona=f"{a}-persona"), "objnone": SNS(graphs=None)}[kind]
+
+
 def _mk_state(case):
     st_ = {"store": RecStore(), "_boot_loaded": True}
     if case.get("etag", "3") is not None:
         st_["version_etag"] = case.get("etag", "3")
     shape = case["shape"]
-    gba = {a: list(g) for a, g in case["gsets"].items() if shape in ("graphs_by_agent", "both") or
-           (shape == "mixed" and case["where"][a] == "graphs_by_agent")}
-    ags = {a: {"graphs": list(g)} for a, g in case["gsets"].items() if shape in ("agents", "both") or
-           (shape == "mixed" and case["where"][a] == "agents")}
+    gba, ags = {}, {}
+    for a, g in case["gsets"].items():
+        where = case["where"][a] if shape == "mixed" else shape
+        if where in ("graphs_by_agent", "both") or where in _WHERE_SILENT:
+            gba[a] = list(g)
+        if where == "both":
+            ags[a] = {"graphs": list(g)}
+        elif where != "graphs_by_agent":
+            ags[a] = _registry_entry(where, a, g) if shape == "mixed" else {"graphs": list(g)}
     if shape != "agents":
         st_["graphs_by_agent"] = gba
     if shape != "graphs_by_agent":
@@ -500,6 +526,9 @@ def _labels(case, want, obs):
            f"limit={'default' if lim is None else ('<=150' if lim <= 150 else '>150')}",
            f"ci={case.get('ci', 'env')}", f"shape={case['shape']}", f"gmode={case.get('gmode', 'random')}",
            f"gate={case.get('gate') or 'open'}"]
+    silent = sorted({w for w in (case.get("where") or {}).values() if w in _WHERE_SILENT or w == "obj"})
+    lbs += [f"registry={w}" for w in silent]
+    lbs += ["registry-entry-without-graphs"] if any(w in _WHERE_SILENT for w in silent) else []
     lbs += ["flush"] if flush else []
     lbs += ["limit-derived"] if case.get("limit_kind") else []
     lbs += ["relog-live-dict"] if relog else []
